@@ -631,12 +631,29 @@ def judge_transition(ctx, table, state, tr, obj, root_names, objcls, labeling, c
                       f"[{kind}] {viewcls}[{srepr(pysel)}] (root {objcls}, chain of {len(state['hist'])}) on domains "
                       f"{srepr([[conc(v, labeling) for v in d] for d in state['doms']])}: {what}", case)
 
+    # call history + mutated input: the list inside the selector is first looked up (same selector object, same
+    # table, nothing in between) with a different content, then edited in place to the content that is judged
+    lst = pysel if isinstance(pysel, list) else next((c for c in pysel if isinstance(c, list)), None) \
+        if isinstance(pysel, tuple) else None
+    if lst is not None:
+        want = list(lst)
+        alts = [list(reversed(want)), []]
+        if sel["k"] == "list" and state["doms"][0]:
+            alts.append([conc(state["doms"][0][0], labeling, True)])
+        alt = next((a for a in alts if a != want), None)
+        if alt is not None:
+            lst[:] = alt
+            call(lambda: obj[pysel])
+            lst[:] = want
+            ctx.evaluations += 1
+            ctx.count("reused_selector_object_histories")
     st, r = call(lambda: obj[pysel])
     ctx.evaluations += 1
     if mutate is not None:
         st, r = mutate(st, r, tr)
     strict = tr["strict"]
     matched_o = False
+    r_comparable = True
     # ------------------------------------------------ against the oracle (clauses of the statement)
     if strict:
         if tr["ost"] == "err":
@@ -670,12 +687,14 @@ def judge_transition(ctx, table, state, tr, obj, root_names, objcls, labeling, c
         d = None
         if tr["garbled"]:
             ctx.count("numpy_axis_order_quirk(key,slice,list)_not_compared")
+            r_comparable = False
         elif cname == "fieldsl" and ("W" in tr["cls"] or shape == "tup(key+slice+list)"):
             # "a component equal to the whole domain acts as a slice" (DRIFT-level) is a `selector == domain` test in
             # the code: on a domain kept as a plain list it never holds for a tuple and does hold for an equal list
             # (which then is a slice, not an integer list, for numpy). R describes tuple domains; both shapes are
             # outside the statement, so they are counted and not compared for this representation.
             ctx.count("whole_domain_component_on_list_domain_not_compared")
+            r_comparable = False
         elif tr["rst"] == "err":
             if st == "ok":
                 d = f"reference machine raises {tr['rfam']}, code returned a value"
@@ -719,8 +738,14 @@ def judge_transition(ctx, table, state, tr, obj, root_names, objcls, labeling, c
         elif st == "err" and strict:
             if st2 == "ok" and g is not sentinel:
                 fail("get-no-error", f"get() returned {str(g)[:80]} for a key on which [] raises", method="get")
-            elif isinstance(r, KeyError) and not (st2 == "ok" and g is sentinel):
-                ctx.drift("get-default", {"cls": viewcls, "shape": shape, "got": repr(g)[:80]})
+        # the default path of get() is its dictionary contract, not a clause of the statement (a plain table answers
+        # get(foreign key) with the default on purpose): judged against the reference machine at DRIFT level
+        if agreed[0] and r_comparable and st == "err" and tr["rst"] == "err" and not tuple_shaped_atom(sel, labeling):
+            exp = tr["rgetMdp"] if is_mdp else tr["rget"]
+            got = "raise" if st2 == "err" else ("default" if g is sentinel else "value")
+            if exp != got and not (strict and got == "value"):
+                ctx.drift("get", {"cls": viewcls, "shape": shape,
+                                  "detail": f"get() answers with '{got}', reference machine says '{exp}'"})
     return agreed[0]
 
 
